@@ -312,7 +312,11 @@ def xarray_reduce(
             )
         # skipna is not supported for all reductions
         # https://github.com/pydata/xarray/issues/8819
-        kwargs = {"skipna": skipna} if skipna is not None else {}
+        # (count, any, all do not accept it at all)
+        kwargs = {"skipna": skipna} if skipna is not None and func not in ["count", "any", "all"] else {}
+        if min_count is not None and func in ["sum", "prod"]:
+            kwargs["min_count"] = min_count
+        kwargs["keep_attrs"] = keep_attrs
         kwargs.update(finalize_kwargs)
         result = getattr(ds_broad, func)(dim=dim_tuple, **kwargs)
         if isinstance(obj, xr.DataArray):
